@@ -49,6 +49,52 @@ theorem number_spellings (op : CmpOp) (n : Int) (x : Data) (hx : x.cmpShape) :
   simp only [dataVal] at k1 k2 k3 k4 ⊢
   cases op <;> simp [Spec.cmp, k1, k2, k3, k4]
 
+/-- every decimal spelling of the integer `n` (numerator `n*d` over a positive power-of-ten – or any positive – denominator `d`:
+`100.0` = 1000/10, `1.00e2` = 100/1, `10000e-2` = 10000/100 …) compares like `n`, against every operand and under every operator -/
+theorem number_spellings_scaled (op : CmpOp) (n : Int) (d : Nat) (hd : 0 < d) (x : Data) (hx : x.cmpShape) :
+    cmpData op (.value (.num (.int n))) x = cmpData op (.value (.num (.flt (n * d) d))) x ∧
+    cmpData op x (.value (.num (.int n))) = cmpData op x (.value (.num (.flt (n * d) d))) := by
+  have hi : (Data.value (.num (.int n))).cmpShape := by simp [Data.cmpShape, Json.isScalar]
+  have hf : (Data.value (.num (.flt (n * d) d))).cmpShape := by simp [Data.cmpShape, Json.isScalar]
+  rw [cmpData_spec op _ x hi hx, cmpData_spec op _ x hf hx, cmpData_spec op x _ hx hi, cmpData_spec op x _ hx hf]
+  have hdz : (0 : Int) < (d : Int) := by exact_mod_cast hd
+  have key : ∀ y : Option Json, Spec.eqOpt (some (.num (.int n))) y = Spec.eqOpt (some (.num (.flt (n * d) d))) y ∧
+      Spec.eqOpt y (some (.num (.int n))) = Spec.eqOpt y (some (.num (.flt (n * d) d))) ∧
+      Spec.ltOpt (some (.num (.int n))) y = Spec.ltOpt (some (.num (.flt (n * d) d))) y ∧
+      Spec.ltOpt y (some (.num (.int n))) = Spec.ltOpt y (some (.num (.flt (n * d) d))) := by
+    intro y
+    cases y with
+    | none => simp [Spec.eqOpt, Spec.ltOpt]
+    | some v =>
+      cases v with
+      | num b =>
+        have e1 : ∀ a c : Int, (n * c == a * 1) = (n * (d:Int) * c == a * (d:Int)) := by
+          intro a c
+          rw [Bool.eq_iff_iff]; simp only [beq_iff_eq]
+          constructor
+          · intro h; rw [Int.mul_right_comm, h]; simp
+          · intro h; rw [Int.mul_right_comm, Int.mul_one] at *; exact Int.eq_of_mul_eq_mul_right (Int.ne_of_gt hdz) (by simpa using h)
+        have e2 : ∀ a c : Int, (a * 1 == n * c) = (a * (d:Int) == n * (d:Int) * c) := by
+          intro a c
+          rw [Bool.beq_comm, e1 a c, Bool.beq_comm]
+        have l1 : ∀ a c : Int, (decide (n * c < a * 1)) = decide (n * (d:Int) * c < a * (d:Int)) := by
+          intro a c
+          rw [Int.mul_right_comm, Int.mul_one]
+          exact decide_eq_decide.mpr ⟨fun h => Int.mul_lt_mul_of_pos_right h hdz, fun h => Int.lt_of_mul_lt_mul_right h (Int.le_of_lt hdz)⟩
+        have l2 : ∀ a c : Int, (decide (a * 1 < n * c)) = decide (a * (d:Int) < n * (d:Int) * c) := by
+          intro a c
+          rw [Int.mul_right_comm, Int.mul_one]
+          exact decide_eq_decide.mpr ⟨fun h => Int.mul_lt_mul_of_pos_right h hdz, fun h => Int.lt_of_mul_lt_mul_right h (Int.le_of_lt hdz)⟩
+        cases b with
+        | int i => simp only [Spec.eqOpt, Spec.ltOpt, Spec.jsonEq, Spec.numEq, Spec.numLt, Spec.numVal, Int.natCast_one]; exact ⟨e1 i 1, e2 i 1, l1 i 1, l2 i 1⟩
+        | flt bn bd => simp only [Spec.eqOpt, Spec.ltOpt, Spec.jsonEq, Spec.numEq, Spec.numLt, Spec.numVal, Int.natCast_one]; exact ⟨e1 bn bd, e2 bn bd, l1 bn bd, l2 bn bd⟩
+      | _ => simp [Spec.eqOpt, Spec.ltOpt, Spec.jsonEq]
+  obtain ⟨k1, k2, k3, k4⟩ := key (dataVal x)
+  simp only [dataVal] at k1 k2 k3 k4 ⊢
+  cases op <;> simp [Spec.cmp, k1, k2, k3, k4]
+/-- `100.0` and `1.00e2` as the parser reads them are instances of `number_spellings_scaled` (n = 100; d = 10, d = 1) -/
+example : parseF64 "100.0".toList = some (100 * 10, 10) ∧ parseF64 "1.00e2".toList = some (100 * 1, 1) := by decide
+
 /-- `?expr` = `?(expr)` and redundant parentheses: a parenthesised sub-expression evaluates, for the child under test, to the same
 truth value as the expression itself (no well-formedness hypothesis needed) -/
 theorem redundant_parentheses (E : Engine) (root : Json) (e : Filter) (p : Ptr) (hp : p.path = []) :
